@@ -23,6 +23,8 @@ func GetEncoder() *Encoder {
 }
 
 func FreeEncoder(encoder *Encoder) {
+	// the writer belongs to the user who set it: the next user's output must not reach it
+	encoder.Writer = nil
 	encoderPool.Put(encoder.Simple(false).ResetBuffer())
 }
 
